@@ -335,7 +335,29 @@ func c20Overlay(r *rand.Rand) Case {
 		m["deep"] = map[string]any{"x": map[string]any{"y": map[string]any{fmt.Sprintf("k%d", i): i, "shared": i}, "l": []any{[]any{i, 2}, []any{3}}}}
 		prev = m
 		ov.Add(fmt.Sprintf("l%d", i), dom.Builder().FromMap(m))
+		if r.Intn(4) == 0 { // a layer that holds nothing (yet), among the others
+			ov.Add(fmt.Sprintf("empty%d", i), dom.Builder().Container())
+		}
 	}
+	// a value that occurs in every layer: every reader is told about its places in the same order
+	// (within one layer the places come in no particular order; the LAYERS come in the order they were added)
+	coordsText := func(cs dom.Coordinates) string {
+		var order []string
+		per := map[string][]string{}
+		for _, c := range cs {
+			if len(order) == 0 || order[len(order)-1] != c.Layer() {
+				order = append(order, c.Layer())
+			}
+			per[c.Layer()] = append(per[c.Layer()], c.Path())
+		}
+		var sb strings.Builder
+		for _, l := range order {
+			sort.Strings(per[l])
+			sb.WriteString(l + ":" + strings.Join(per[l], ",") + ";")
+		}
+		return sb.String()
+	}
+	searchOrder := coordsText(ov.Search(dom.SearchEqual(2)))
 	before := dom.VerifDump(ov)
 	var fail []string
 	reads := []struct {
@@ -344,7 +366,15 @@ func c20Overlay(r *rand.Rand) Case {
 	}{
 		{"Lookup", func() { _ = ov.Lookup("l0", "a.b"); _ = ov.Lookup("nosuchlayer", "a") }},
 		{"LookupAny", func() { _ = ov.LookupAny("a.b"); _ = ov.LookupAny("e") }},
-		{"Search", func() { _ = ov.Search(dom.SearchEqual(1)) }},
+		{"Search", func() {
+			_ = ov.Search(dom.SearchEqual(1))
+			for k := 0; k < 6; k++ {
+				if again := coordsText(ov.Search(dom.SearchEqual(2))); again != searchOrder {
+					fail = append(fail, "OverlayDocument.Search of an untouched overlay answers "+again+" after it answered "+searchOrder)
+					break
+				}
+			}
+		}},
 		{"Merged", func() { _ = ov.Merged(); _ = ov.Merged(dom.ListsMergeAppend()) }},
 		{"Layers", func() { _ = ov.Layers() }},
 		{"LayerNames", func() {
